@@ -196,7 +196,7 @@ def compare(B, label, tree, sexpr, assume_extra=(), opts=None, want_modes=True, 
                 checks.append(("output-count(impl %d, spec %d)" % (len(io), len(so)), extra["guard"]))
             for k, (a, b) in enumerate(zip(io, so)):
                 checks.append(("output[%d]-fires" % k, z3.Xor(zb(a["guard"]), zb(b["guard"]))))
-                same_dest = a["dest"] == b["dest"]
+                same_dest = dest_eq(a["dest"], b["dest"])
                 same_term = (a["term"] == b["term"])
                 content = b_and(same_dest, same_term, items_eq(a["payload"], b["payload"]))
                 checks.append(("output[%d]-content" % k, b_and(a["guard"], b_not(content))))
@@ -209,6 +209,29 @@ def compare(B, label, tree, sexpr, assume_extra=(), opts=None, want_modes=True, 
                                          detail=dict(impl=[show_out(o) for o in io], spec=[show_out(o) for o in so])))
                     break
     return findings, info
+
+
+def dest_eq(x, y):
+    """equality of two destinations as a guard: file names may hold symbolic characters"""
+    if x[0] != y[0]:
+        return False
+    if x[0] != "file":
+        return x == y
+    nx, ny = tuple(x[1]), tuple(y[1])
+    if len(nx) != len(ny):
+        return False
+    g = True
+    for p, q in zip(nx, ny):
+        if isinstance(p, int) and isinstance(q, int):
+            if p != q:
+                return False
+        elif is_sym(p) and is_sym(q) and p.eq(q):
+            continue
+        else:
+            P = p if is_sym(p) else z3.BitVecVal(p, 32)
+            Q = q if is_sym(q) else z3.BitVecVal(q, 32)
+            g = b_and(g, P == Q)
+    return g
 
 
 def show_out(o):
